@@ -755,6 +755,7 @@ func cancelledMerges(r *RunCtx) {
 		r.countN("sim.steps", sim.steps)
 		r.countN("probe.sched.yield-under-lock-recoveries", sim.lockStalls)
 		r.countN("sim.switches", sim.switches)
+		r.sched(sim)
 		for _, tk := range sim.tasks {
 			if tk.panicV != nil {
 				r.fail("panic", panicSite(tk.panicSt), "task panicked: %v\n%s", tk.panicV, tk.panicSt)
